@@ -12,9 +12,13 @@ S2LINT = os.environ.get("S2LINT", "/verif/bin/s2lint")
 JOBS = int(os.environ.get("JOBS", "6"))
 ENV = dict(os.environ, GOFLAGS="-mod=mod", GOPROXY="off", GOSUMDB="off", GOTOOLCHAIN="local")
 ENV.pop("GOWORK", None)
+# the scratch copies' build output goes to a cache of its own, removed at the end of the run
+CACHE_ROOT = tempfile.mkdtemp(prefix="s2seedcache-")
+ENV["GOCACHE"] = os.path.join(CACHE_ROOT, "gocache")
 
 def run_prop(repo, p):
-    r = subprocess.run([S2LINT, "-prop", p, "-tier", "quick", "-repo", repo, "-noreplay"], capture_output=True, text=True, env=ENV)
+    env = ENV if repo != "/repo" else {k: v for k, v in ENV.items() if k != "GOCACHE"}
+    r = subprocess.run([S2LINT, "-prop", p, "-tier", "quick", "-repo", repo, "-noreplay"], capture_output=True, text=True, env=env)
     fails = re.findall(r"^FAIL (\S+)", r.stdout, re.M)
     return p, r.returncode, fails
 
@@ -72,4 +76,7 @@ def main():
     a = sum(1 for v in results.values() if v.get("detected_by"))
     print(f"{k}/{n} detected by the check of the property they were written against; {a}/{n} by some check")
 
-main()
+try:
+    main()
+finally:
+    shutil.rmtree(CACHE_ROOT, ignore_errors=True)
